@@ -107,7 +107,13 @@ let verdict_of (param : string) (arg : string) (impl : string) : string =
                              let want = if has_report_prefix n then 'R' else 'C' in
                              if r.[0] <> want then
                                fails := (if want = 'C' then "C13:declared-control-variable-is-not-in-a-control-slot"
-                                         else "C13:declared-report-variable-is-not-in-a-report-slot") :: !fails
+                                         else "C13:declared-report-variable-is-not-in-a-report-slot") :: !fails;
+                             (* it carries the literal initial value it was declared with, or none: never a
+                                name waiting to be resolved (NameFacts.p_defs_decls: tname_free) *)
+                             (match String.index_opt r ':' with
+                              | Some k when k + 1 < String.length r && r.[k + 1] = 'N' ->
+                                fails := "C13:declared-variable-carries-a-name-instead-of-its-declared-initial-value" :: !fails
+                              | _ -> ())
                            | _ -> ()
                          end) decls
                    | _ -> ())
